@@ -39,6 +39,17 @@ Theorem C09_func_refused : forall c s g size t,
   snd (send c s g size t) = SendValueError -> fst (send c s g size t) = s.
 Proof. exact send_refused_unchanged. Qed.
 
+(** An explicit target address type wins over default_target_address_type (a Physical send is accepted for every size and its request
+    is Physical whatever the default says); an omitted one takes the default. *)
+Theorem C09_explicit_physical : forall c s g size, 0 <= size <= 0xFFFFFFFF ->
+  send c s g size (Some Physical) =
+  (s <| tx_queue := tx_queue s ++ [{| r_id := next_req_id s; r_gen := g; r_size := size; r_consumed := 0; r_depleted := false; r_tat := Physical |}] |>
+     <| next_req_id := next_req_id s + 1 |>, SendOk).
+Proof. exact send_explicit_physical. Qed.
+
+Theorem C09_default_target : forall c s g size, send c s g size None = send c s g size (Some (p_default_tat (c_p c))).
+Proof. exact send_default_target. Qed.
+
 (** The constructor's validation is the documented table of required parameters and ranges. *)
 Theorem C09_validate : forall a, addr_validate a = true <-> address_ok a.
 Proof. exact addr_validate_iff. Qed.
@@ -51,3 +62,5 @@ Print Assumptions C09_mirror.
 Print Assumptions C09_func.
 Print Assumptions C09_func_refused.
 Print Assumptions C09_validate.
+Print Assumptions C09_explicit_physical.
+Print Assumptions C09_default_target.
